@@ -163,6 +163,25 @@ def run_one(tape, cfg):
                 if r != first:
                     out.violate("random_sample_not_reproducible",
                                 f"random_sample({prob}, random_state={rs}) gave {first} and {r}", op=op)
+            if out.status != "violation" and pop and tape.chance(1, 2, "together"):
+                # the same bag consumed by a second sampling operation in the same computation
+                import dask
+                from dask.bag.random import sample as bag_sample
+
+                kk = 1 + tape.draw(len(pop), "kk")
+                other = bag_sample(bag, kk)
+                r5 = sr.SimRun(tape)
+                with r5:
+                    tog, smp = dask.compute(sampled, other, scheduler=r5.get)
+                digests.append(r5.sim.digest())
+                out.probe("two_samplers_one_compute")
+                if list(tog) != first:
+                    out.violate("random_sample_not_reproducible",
+                                f"random_sample({prob}, random_state={rs}) computed together with sample(b, {kk}) "
+                                f"of the same bag gave {list(tog)}, alone {first}", op=op)
+                elif len(smp) != kk or Counter(smp) - Counter(pop):
+                    out.violate("sample_not_submultiset", f"sample(b, {kk}) -> {list(smp)}, population {pop}",
+                                op=op)
             if out.status != "violation":
                 # a subsequence of the population, partition by partition
                 it = iter(pop)
